@@ -566,3 +566,30 @@ Proof. rewrite !pcmp_key. apply int_op_rel. Qed.
 
 Lemma pcmp_refl a : pcmp OEq a a = true.
 Proof. apply (pcmp_eq_of_eq a a (pexp a)); lia. Qed.
+
+(* the converse: in the model, numbers with equal hashes denote the same value (the modelled hash is the normal form
+   of the value; CPython's hash may of course collide) *)
+Lemma dnorm_inj x y : dnorm x = dnorm y -> at_ (dmin x y) x = at_ (dmin x y) y.
+Proof.
+  intros H. destruct (dnorm_total x) as [c [k Nx]]. pose proof Nx as Ny. rewrite H in Ny.
+  pose proof (dnorm_spec x c k Nx) as Sx. pose proof (dnorm_spec y c k Ny) as Sy.
+  set (m := dmin x y). assert (m <= dexp x /\ m <= dexp y) as [Mx My] by (unfold m, dmin; lia).
+  unfold at_. rewrite !pow10_spec.
+  destruct Sx as [[Zx [Cx Kx]]|[Nzx [Lx [Ex Dx]]]]; destruct Sy as [[Zy [Cy Ky]]|[Nzy [Ly [Ey Dy]]]].
+  - rewrite Zx, Zy. reflexivity.
+  - exfalso. subst c. apply Dy. reflexivity.
+  - exfalso. subst c. apply Dx. reflexivity.
+  - rewrite Ex, Ey. rewrite <- !Z.mul_assoc, <- !p10_add by lia. f_equal. f_equal. lia.
+Qed.
+
+Lemma phash_injective a b e : e <= pexp a -> e <= pexp b -> phash a = phash b -> vat e a = vat e b.
+Proof.
+  intros Ha Hb H. unfold phash in H. rewrite !unit_number_spec in H. cbn [bind] in H.
+  assert (dnorm (number (pscale a 0)) = dnorm (number (pscale b 0))) as N by (injection H; intros N; exact N).
+  apply dnorm_inj in N.
+  pose proof (unit_number_exp a) as La. pose proof (unit_number_exp b) as Lb.
+  set (m := dmin (number (pscale a 0)) (number (pscale b 0))) in *.
+  assert (m <= dexp (number (pscale a 0)) /\ m <= dexp (number (pscale b 0))) as [Ma Mb] by (unfold m, dmin; lia).
+  rewrite (unit_number_at m a Ma), (unit_number_at m b Mb) in N.
+  apply (vat_eq_any m); try assumption; lia.
+Qed.
